@@ -242,11 +242,13 @@ def r18h(chk, rid='R18.h'):
     prods = {'DIMENSION': prod_of('dimension'), 'NUMBER': prod_of('number'), 'PERCENTAGE': prod_of('percentage')}
     fn = vm.get('DimensionValue._setCssText')
 
-    def run(ttype, literal):
+    def run(ttype, literal, used=False):
         token = (ttype, literal, 1, 1)
         conv = getattr(prods[ttype], 'toSeq', None)
         typ, val = conv(token, None) if conv else (token[0], token[1])
         me = Record(_checkReadonly=lambda: None, _setSeq=lambda sq: None, wellformed=None, _sign=None, _value=None, _dimension=None, _type=None)
+        if used:  # an object that held another value before
+            me._sign, me._value, me._dimension, me._type, me.wellformed = '-', 99, 'old', 'DIMENSION', True
         intr = {'ProdParser().parse': lambda *a, **k: (True, [Record(type=typ, value=val)], {}, None), 'Sequence': lambda *a, **k: None, 'Choice': lambda *a, **k: None,
                 'PreDef': Record(dimension=lambda **k: None, number=lambda **k: None, percentage=lambda **k: None), 'normalize': norm}
         res = Evaluator(fn, intrinsics=intr, module=vm, cls='DimensionValue').run(self=me, cssText=literal)
@@ -283,6 +285,17 @@ def r18h(chk, rid='R18.h'):
                     probs.append(f'type {me._type!r}')
                 if probs:
                     bad.append(f'{literal!r}: ' + ', '.join(probs))
+    # assigning new text to a value object that held something else gives what a fresh object gives
+    stale = []
+    for ttype, literal in (('NUMBER', '3'), ('NUMBER', '1.2'), ('PERCENTAGE', '50%'), ('DIMENSION', '2em'), ('NUMBER', '+0')):
+        r1, fresh = run(ttype, literal)
+        r2, used = run(ttype, literal, used=True)
+        n += 1
+        a = (fresh._sign, fresh._value, fresh._dimension, fresh._type)
+        b = (used._sign, used._value, used._dimension, used._type)
+        if isinstance(r2, Raised) or a != b:
+            stale.append(f'{literal!r} assigned to an object that held -99old: (sign, value, unit, type) = {b}, a fresh object gives {a}')
+    chk.ob(rid, 'cssutils/css/value.py', 'DimensionValue._setCssText', 'a value object set to new text holds nothing of its old value', not stale, '; '.join(stale[:2]) + ': line-height: 18px edited in place to 1.2 is written 1.2px')
     chk.extra['numeric_literal_cases'] = n
     for b_ in bad[:4]:
         chk.ob(rid, 'cssutils/css/value.py', 'DimensionValue._setCssText', 'literal read as written', False, b_)
